@@ -3,3 +3,19 @@ chk('C18','exploration','reference-predicate monitor over exhaustive enumeration
     'Runs the real parsers/formatters/constructors over the complete 16-bit address space (both kinds), every component tuple of the documented ranges widened by 3 (negatives, zero-padded and signed spellings), a grammar of malformed strings and all 2^24 constructor argument tuples, comparing each result with an independently written acceptance predicate and closed forms. Exhaustive on the finite sub-spaces, sampled on arbitrary strings.',
     'Trusted: the reference predicate in monitors/c18 (written from the documented forms; strconv.Atoi decimal syntax taken as the meaning of %d). Arbitrary malformed strings are sampled, not exhausted.',
     'DESIGN.md 5/C18')
+chk('C06','exploration','round-trip monitor (decode->encode->decode) with reference re-encoding table',
+    'Runs the real Unpack/Pack of every registered datapoint type over exhaustive 1-/2-/3-byte payload spaces, all field combinations (quick) or all 2^24 payloads (thorough) of the 4-byte types, stratified 2^14 / 2^22 encodings per 5-byte type plus complete 2^32 sweeps of 12.001, 13.001 and 14.000 (thorough), and structured samples of the longer types; the oracle demands bitwise value stability and, for exact formats, byte identity against an independent mask/replacement table. Drifts are classified by a narrow witness predicate; only the two recorded known findings are tolerated.',
+    'Trusted: internal/spec/dpt.go (lengths, reserved-bit masks, documented replacements). 5-byte types other than the three swept ones, and 7-/15-byte/variable types, are sampled.',
+    'DESIGN.md 5/C06')
+chk('C07','exploration','reference-model monitor over generated values (accuracy, monotonicity, saturation, layout, self-decode)',
+    'Packs generated Go values of every registered type with the real encoder and decodes them with the real decoder: float types over log-uniform magnitudes, every bound +-3 ulps, all 16-bit-float exponent-switch neighbours and every step/midpoint of the scaled integers; 8/16-bit integer types exhaustively; struct types over grids with out-of-range fields; strings over ASCII/Latin-1/BMP/astral/invalid UTF-8. Oracle = independent DPT table: error <= one quantisation step, sorted-sample monotonicity, saturation equals the bound\'s image, prescribed length/leading octet/layout, accepted by own decoder.',
+    'Trusted: internal/spec/dpt.go ranges/steps. float32 domain is sampled (boundary-directed), not exhausted.',
+    'DESIGN.md 5/C07')
+chk('C08','exploration','totality/range monitor over enumerated and sampled byte strings',
+    'Feeds every registered type\'s real decoder all byte strings of length 0..3 over a boundary alphabet, sampled longer ones, exhaustive correct-length payloads for types up to 3 bytes, all 2^21 field combinations (quick) / 2^24 payloads (thorough) of 10.001, 11.001 and 232.600, all 2^16 flag/reserved patterns of 242.600 and 251.600; asserts no panic, wrong length rejected, decoded value inside the documented range, String()/Unit() total.',
+    'Trusted: documented ranges in internal/spec/dpt.go. Payloads of 5 bytes and more are sampled.',
+    'DESIGN.md 5/C08')
+chk('C19','exploration','reflection + source-parse monitor; Go race detector on 16 goroutines',
+    'Enumerates every registry name (syntax, uniqueness, Produce, dynamic type name, zero value), parses /repo/knx/dpt for every exported DPT_* type with the Datapoint method set and checks reachability, probes unknown names, checks instance independence sequentially and under 16 concurrent goroutines with the race detector (any report is a violation).',
+    'Trusted: go/parser view of the package source; race detector sees executed paths only. Exhaustive over names and source types.',
+    'DESIGN.md 5/C19')
